@@ -91,6 +91,8 @@ func t3Body(s HarnessSpec) (func(x *gosym.Exec), error) {
 		return gosym.T3GenericTables(p), nil
 	case "gendepth":
 		return gosym.T3GenericDepth(p), nil
+	case "unquoteflags":
+		return gosym.T3UnquoteFlags(p), nil
 	}
 	return nil, fmt.Errorf("unknown tier-3 check %q", s.T3)
 }
